@@ -582,6 +582,25 @@ def rule_p10(ctx, F):
                reset_pts=[pt for pt, n, l, op in stores(fn) if writes_record(l, "TSParser") in flags and strip(n.get("r") or {}).get("k") == "int" and not strip(n["r"]).get("v")])
 
 
+def rule_p11(ctx, F):
+    """P11: the running column and the recomputed column count the same characters.  ts_lexer_start skips a leading
+    byte-order mark and sets the column to 0 *after* it; a recomputation from the line start (ts_lexer__get_column with an
+    invalid cache) advances through ts_lexer__do_advance from byte 0 — so do_advance does not count the BOM either.
+    Otherwise get_column() differs by one on the first line depending on whether the cache was valid, i.e. on whether
+    the parse was interrupted and the token re-lexed."""
+    fn = ctx.need_fn(F, "ts_lexer__do_advance", "P11")
+    if not fn:
+        return
+    inc = [pt for pt, c in fn.calls() if callee_name(c) == "ts_lexer__increment_column_data"]
+    if not inc:
+        ctx.bad("P11", "ts_lexer__do_advance:bom-not-counted", "ts_lexer__do_advance no longer advances the column counter")
+        return
+    bind(fn, "is_bom", "self->current_position.bytes == 0 && self->data.lookahead == 65279")
+    ctx.gate("P11", fn, inc, [("the byte-order mark at offset 0 does not count as a column",
+                              [("is_bom", False), ("self->current_position.bytes == 0 && self->data.lookahead == 65279", False), ("self->current_position.bytes == 0", False), ("self->data.lookahead == 65279", False)])],
+             accept_desc="counting a character in the running column")
+
+
 def rule_p5(ctx, F):
     """P5: chunking and encoding.  A chunk is always requested for the lexer's current position; the
     decoder is the one of the declared encoding; the ASCII short-cut applies to UTF-8 only; the chunk is
@@ -638,6 +657,7 @@ def run(ctx):
         rule_p8(ctx, F)
         rule_p9(ctx, F)
         rule_p10(ctx, F)
+        rule_p11(ctx, F)
         # a rejected range list leaves the parser's ranges untouched (history independence; shared with C13.G1)
         import C13
         C13.rule_g1(ctx, F)
